@@ -261,12 +261,14 @@ def check(ctx, run):
             if not (isinstance(a_, tuple) and isinstance(b_, tuple)):
                 return None
             return (a_[1] > b_[1]) - (a_[1] < b_[1])
-        hooks = string_hooks({"MockNamedValue::getType": lambda *a_: ("str", tag), "SimpleString::StrCmp": strcmp})
+        # (the C-string primitives are folded, not stubbed: however the tag is compared, it is compared as a whole string)
+        hooks = string_hooks({"MockNamedValue::getType": lambda *a_: ("str", tag)})
         for g_, v_ in GVAL.items():
             hooks["MockNamedValue::" + g_] = (lambda *a_, v_=v_: v_)
         ev = Evaluator(prog, conv, env={pname: 4000}, calls=hooks)
         ev.pass_object = True
-        ev.run_blocks(conv.entry, max_steps=1500)
+        ev.inline = {"SimpleString::StrCmp", "SimpleString::StrNCmp", "SimpleString::StrLen"}
+        ev.run_blocks(conv.entry, max_steps=6000)
         locs = {}
         for k, v in ev.env.items():
             m_ = re.match(r"^\w+\.(type|value\.(\w+))$", k)
@@ -280,6 +282,15 @@ def check(ctx, run):
             ok = locs.get("type") == enumv.get(enum) and vals == {member: GVAL[getter]}
             run.ob("R3", "tag %r" % tag, conv.site, ok, witness={"folded": {k: str(v) for k, v in locs.items()}, "required": [enum, member, getter]},
                    what="" if ok else "conversion row for tag %r writes %s, expected type %s and %s from %s()" % (tag, {k: str(v) for k, v in locs.items()}, enum, member, getter))
+        # a user type whose name merely starts with (or is the start of) a built-in tag is an object of that user type
+        other = next((u_ for u_ in UNION if u_[0] is None), None)
+        if other is not None:
+            for tag in ("intPair", "int32_t", "boolean_t", "doubleBuffer", "in", "boo", "const char*x", "unsigned", "void"):
+                locs = fold_conv(tag)
+                vals = {k: v for k, v in locs.items() if k != "type"}
+                ok = locs.get("type") == enumv.get(other[1]) and vals == {other[2]: GVAL[other[3]]}
+                run.ob("R3", "user type %r (shares a prefix with a built-in tag)" % tag, conv.site, ok, witness={"folded": {k: str(v) for k, v in locs.items()}, "required": list(other[1:])},
+                       what="" if ok else "a value of the user type %r is converted as %s: tags are matched by prefix, not as whole names" % (tag, {k: str(v) for k, v in locs.items()}))
     except Unknown as u:
         run.broke("C19.R3: getMockValueCFromNamedValue cannot be folded: %s" % u)
 
